@@ -58,6 +58,8 @@ def absmax(a):
 def gen_chain_model(rng, kind, big=False):
     if kind == "spin":
         return L.gen_spin_model(rng, n=(int(rng.integers(3, 7)) if not big else 10), conserve=False)
+    if kind == "spin-u1-collective":
+        return L.gen_collective_model(rng, n=(int(rng.integers(4, 7)) if not big else 10))
     if kind == "spin-u1":
         return L.gen_spin_model(rng, n=(int(rng.integers(3, 7)) if not big else 10), conserve=True)
     if kind == "eph":
@@ -548,7 +550,7 @@ def run_tree_case(run, rng, kind):
     mask = tm.sector_mask(qntot)
     w = np.linalg.eigvalsh(h[np.ix_(mask, mask)])
     scale = max(1.0, absmax(h))
-    algo = str(rng.choice(["davidson", "direct", "arpack"]))
+    algo = str(rng.choice(["davidson", "direct", "arpack"])) if kind != "spin-u1-collective" else str(rng.choice(["arpack", "arpack", "davidson"]))
     full = bool(rng.random() < 0.6)
     mfull = int(tm.dim)
     if full:
@@ -710,7 +712,7 @@ def search(run, rng, quick):
     t0 = time.time()
     distinct = set()
     evals = 0
-    kinds = ["eph", "spin-u1", "qc", "spin", "eph-2qn", "eph", "qc", "spin-u1"]
+    kinds = ["eph", "spin-u1", "qc", "spin", "eph-2qn", "eph", "qc", "spin-u1", "spin-u1-collective"]
     nchain = 160 if quick else 1200
     for it in range(nchain):
         key = run_chain_case(run, rng, kinds[it % len(kinds)])
@@ -737,7 +739,7 @@ def search(run, rng, quick):
     davidson_probe(run)
     evals += 1
     ntree = 50 if quick else 400
-    tkinds = ["spin-u1", "eph", "spin", "qc", "eph-2qn"]
+    tkinds = ["spin-u1", "eph", "spin", "qc", "eph-2qn", "spin-u1-collective"]
     for it in range(ntree):
         key = run_tree_case(run, rng, tkinds[it % len(tkinds)])
         evals += 1
